@@ -8,9 +8,7 @@ from common import R, Rvec, Cx, fl, cfl, ModelError
 
 from common import all_pre_build as pre_build  # noqa: E402,F401  (wiring + hc + fncalls translators)
 
-LEAN_MODULES = ["PyomaVerif.Props.C07", "PyomaVerif.Props.C07Bell", "PyomaVerif.Mutants.C07", "PyomaVerif.Props.WiringMpe", "PyomaVerif.Props.C07All", "PyomaVerif.Props.WiringCalls", "PyomaVerif.Props.C07Rect", "PyomaVerif.Props.WiringFn"]
-LEAN_MODULES = ["PyomaVerif.Props.C07", "PyomaVerif.Props.C07Bell", "PyomaVerif.Mutants.C07", "PyomaVerif.Props.WiringMpe", "PyomaVerif.Props.C07All", "PyomaVerif.Props.WiringCalls",
-                "PyomaVerif.Props.C07Floor"]
+LEAN_MODULES = ["PyomaVerif.Props.C07", "PyomaVerif.Props.C07Bell", "PyomaVerif.Mutants.C07", "PyomaVerif.Props.WiringMpe", "PyomaVerif.Props.C07All", "PyomaVerif.Props.WiringCalls", "PyomaVerif.Props.C07Rect", "PyomaVerif.Props.WiringFn", "PyomaVerif.Props.C07Floor"]
 THEOREMS = [
     # the exact sequence of core-routine calls of the run()/mpe() body and the exact set of parameters bound at each (regenerated call table)
     "PV.WiringCalls.C06_mpe_calls",
